@@ -21,6 +21,9 @@ Obligations per member (all values of all evaluation variables, challenges and p
                evaluation `random_eval`, opened only), every commitment read occurs in a query, every
                public input of a queried plain instance column occurs in some identity
   path         the recorded path conditions of the symbolic run are satisfiable (run is not vacuous)
+  table-binding (members `st-*` only: static tables = TableColumn + assign_table) the table term of the lookup
+               identities is the evaluation opened against the vk's commitment of the declared table column, whose
+               committed vector is the declared table padded with its first row on the usable rows
 """
 import json, random, re, time
 from concurrent.futures import ThreadPoolExecutor
@@ -50,6 +53,7 @@ def family():
     extra = 2 if core.tier() == "quick" else 34
     for i in range(extra):
         members[f"seeded{i}"] = symf.random_shape(rnd)
+    members.update(symf.static_members())     # static lookup tables (own seed stream; the members above are unchanged)
     return members
 
 
@@ -296,6 +300,107 @@ def check_member(run, name, m):
                       functions=["proofs/src/plonk/circuit.rs::blinding_factors"], bound=bound, key="blinding-factors")
         run.add(ob2)
         ob2.set(INCONCLUSIVE, f"spec {info['spec_blinding_factors']} vs cs {info['cs_blinding_factors']}")
+    if m["shape"].get("slookups"):
+        check_table_binding(run, name, mm, d, vr, bound)
+
+
+def table_binding(d, vr, shape):
+    """static lookups of one verifier run: (problems, coefficient pairs, per lookup the vk's table tuples on the usable
+    rows, per lookup the declared rows).
+    For every static lookup L and table column j: vk.cs()'s table expression is the plain query of the declared table
+    column at rotation 0; the specification's opening query of that column is against vk.fixed_commitments()[column], the
+    guard has the same query (commitment, point x, evaluation term), and that evaluation variable occurs in the
+    lookup-product identity of L for every proof (so the table polynomial of the identity IS the committed column); the
+    vector behind the commitment handle equals the declared table: its rows, then its first row up to the last usable
+    row, 0 on the blinding rows (usable rows counted with the SPECIFICATION's blinding-factor count)."""
+    dag, info = vr.dag, vr.info
+    n = vr.n
+    st = d["static_tables"]
+    usable = n - (info["spec_blinding_factors"] + 1)
+    problems, pairs, tv, tr = [], [], [], []
+    if st["urows"] != usable:
+        problems.append(f"usable rows: constraint system {st['urows']} vs specification {usable}")
+    sq = {q["what"]: q for q in d["spec"]["queries"]}
+    ids = {cls: t for cls, t in d["spec"]["ids"]}
+    xkey = symf.poly_key(vr.nf(info["x"]))
+    sup = {}
+    for li, lk in enumerate(shape["slookups"]):
+        L = len(shape.get("lookups", [])) + li
+        rows = st["tables"][lk["table"]]
+        ncols = len(rows[0])
+        csl = d["cs_lookups"][L] if L < len(d["cs_lookups"]) else {"tables": []}
+        cols_vec = []
+        for j in range(ncols):
+            col = symf.static_table_fixed_index(shape, lk["table"], j)
+            if j >= len(csl["tables"]) or csl["tables"][j] != ["f", col, 0]:
+                problems.append(f"lookup {L}: table expression {j} is {csl['tables'][j:j + 1]}, declared fixed column {col} at rotation 0")
+            q = sq.get(f"fixed[col {col}]@0")
+            if q is None or col >= len(d["vk"]["fixed_commitments"]):
+                problems.append(f"lookup {L}: no opening query for table column {col}")
+                continue
+            h = d["vk"]["fixed_commitments"][col]
+            if q["coms"] != [h]:
+                problems.append(f"lookup {L}: query of table column {col} is not against vk.fixed_commitments()[{col}]")
+            qe = symf.poly_key(vr.nf(q["eval"]))
+            if not any(g["coms"] == [h] and g["n"] is None and symf.poly_key(vr.nf(g["point"])) == xkey
+                       and symf.poly_key(vr.nf(g["eval"])) == qe for g in d["guard"]):
+                problems.append(f"lookup {L}: the guard does not open vk.fixed_commitments()[{col}] at x with the evaluation the lookup identity uses")
+            ev = dag.var_name(q["eval"])
+            for i in range(d["np"]):
+                t = ids.get(f"lookup-product[proof {i}][{L}]")
+                if t is None or ev not in dag.support(t, sup):
+                    problems.append(f"lookup {L} proof {i}: the evaluation of table column {col} does not occur in the lookup-product identity")
+            com = d["world"]["coms"][h]
+            vec = [dag.const(t) for t in com[2]] if com[0] == "commit" and com[1] == "lagrange" else []
+            if len(vec) != n or None in vec:
+                problems.append(f"lookup {L}: the vector behind vk.fixed_commitments()[{col}] is not {n} constants")
+                vec = [v if v is not None else -1 for v in vec] + [-1] * (n - len(vec))
+            pairs.append((len(vec), n))
+            pairs += list(zip(vec, symf.static_expected_column(rows, j, n, usable)))
+            cols_vec.append(vec)
+        tv.append([tuple(c[i] for c in cols_vec) for i in range(usable)] if len(cols_vec) == ncols else [])
+        tr.append([tuple(r) for r in rows])
+    return problems, pairs, tv, tr
+
+
+def check_table_binding(run, name, mm, d, vr, bound):
+    ob = core.Ob(f"C02/S/{name}/table-binding", ENGINE,
+                 "static lookup tables: the table term of the verifier's lookup identities is the evaluation opened against the vk's "
+                 "commitment to the declared table column, and the committed vector is the declared table padded with its first row "
+                 "on the usable rows (0 on the blinding rows)",
+                 functions=FUNCS + ["proofs/src/plonk/keygen.rs::Assembly::fill_from_row", "proofs/src/plonk/keygen.rs::Assembly::assign_fixed",
+                                    "proofs/src/circuit/floor_planner/single_pass.rs::assign_table",
+                                    "proofs/src/circuit/table_layouter.rs::SimpleTableLayouter::assign_cell",
+                                    "proofs/src/plonk/circuit.rs::ConstraintSystem::lookup"],
+                 bound=bound, key="static-table:committed-column")
+    run.add(ob)
+    try:
+        problems, pairs, tv, tr = table_binding(d, vr, mm["shape"])
+    except Exception as ex:
+        ob.set(INCONCLUSIVE, f"{ex!r}"[:300])
+        return
+    r = solvers.solve(symf.residual_smt(pairs), timeout=60)
+    twp = list(pairs)
+    twp[-1] = (twp[-1][0], (twp[-1][1] + 1) % P)
+    tw = solvers.solve(symf.residual_smt(twp), timeout=60)
+    ob.queries += 2
+    ob.vacuity = tw.status == "sat"
+    if r.status == "unsat" and not problems and ob.vacuity:
+        ob.set(HOLDS, f"{len(tr)} static lookups, {sum(len(t[0]) for t in tr)} table columns x {vr.n} rows, tables of "
+               f"{[len(t) for t in tr]} rows padded to {d['static_tables']['urows']} usable rows", solver=r.solver, solver_s=r.time_s)
+    elif r.status == "sat" or problems:
+        detail = "; ".join(problems[:3])
+        for li, (a, b) in enumerate(zip(tv, tr)):
+            if set(a) != set(b):
+                ob.key = "static-table:committed-rows"
+                detail += (f" static lookup {li}: rows of the committed table that are not declared {sorted(set(a) - set(b))[:3]}, "
+                           f"declared rows that are not committed {sorted(set(b) - set(a))[:3]}")
+        if not detail:
+            detail = "the committed table column differs from the declared table (same set of rows)"
+        payload = {"kind": "table-binding", "member": mm}
+        ob.set(VIOLATION if replay(payload) else INCONCLUSIVE, detail.strip(), solver=r.solver, solver_s=r.time_s, replay=_wr(run, ob, payload))
+    else:
+        ob.set(INCONCLUSIVE, f"solver {r.status}, twin {tw.status}")
 
 
 def query_problems(vr, d):
@@ -395,6 +500,9 @@ def check(run):
                     "C02: soundness of KZG / Fiat-Shamir; the prover; fault injection on concrete proofs",
                     "C02: a full forged-proof replay (real prover + verifier accepting a violating witness) is not built; "
                     "counterexamples are replayed as the polynomial disagreement on the real verifier code at concrete values"]
+    run.bounds.append(f"C02/S static tables: {len([n for n in members if n.startswith('st-')])} shapes with `meta.lookup` into "
+                      "TableColumn tables filled by assign_table (1-2 columns, lengths 1..usable-1, with/without the zero tuple, with/without a "
+                      "complex selector, advice cell / linear expression as input), k = 4")
     run.translator_validation.append(
         "S/C02: for every member the canonical forms of expected_h*(x^n-1) and of the specification sum are evaluated at a "
         "pseudo-random point and compared with a direct numeric evaluation of the term DAG (W := 1/(x^n-1))")
@@ -413,11 +521,29 @@ def check(run):
 
 def replay(payload):
     """Re-execute a counterexample against the real code. Returns 1 if it reproduces."""
-    if payload.get("engine_part") not in (None, "S") or payload.get("kind") not in ['h-mismatch', 'layout', 'count', 'queries', 'unused']:
+    if payload.get("engine_part") not in (None, "S") or payload.get("kind") not in ['h-mismatch', 'layout', 'count', 'queries', 'unused', 'table-binding']:
         return None
     symf.build()
     m = payload["member"]
     kind = payload["kind"]
+    if kind == "table-binding":
+        # re-run; a row in exactly one of (committed table, declared table) is looked up on the real stack: reproduced iff
+        # MockProver and the real verifier (Fq, KZG, Blake2b) give different verdicts on that witness
+        d = symf.run_verifier(m)
+        if "spec" not in d:
+            return 0
+        problems, pairs, tv, tr = table_binding(d, symf.VerifierRun(d), m["shape"])
+        bad = [(a, b) for a, b in pairs if a != b]
+        print(f"re-run: {len(bad)} cells of the committed table columns differ from the declared table; {problems[:2]}")
+        r = symf.static_tuple_replay(m, tv, tr, "the declaration")
+        if r is not None:
+            print("reproduced: MockProver and the real verifier disagree on that witness" if r else "the verdicts agree on every tuple tried")
+            return r
+        if not bad and not problems:
+            for li, rows in enumerate(tr):
+                tup = symf.static_cheat_tuple([list(t) for t in rows])
+                print(f"committed table == declared table on this tree; witness looking {tuple(tup)} up in static lookup {li}: {symf.static_real(m, li, tup)[2]}")
+        return 1 if (bad or problems) else 0
     if kind == "h-mismatch":
         d = symf.run_verifier(m, vals=payload["vals"])
         if "spec" not in d:
